@@ -3,7 +3,7 @@
 # Validates a seeded mutation in a scratch worktree (demo passes clean / fails patched / suite passes)
 # and runs the given checks against the patched tree (VERIF_REPO). Removes the worktree afterwards.
 sd=$(cd "$1" && pwd); shift
-VERIFDIR=$(cd $VERIFDIR && pwd)
+VERIFDIR=$(cd "$(dirname "$0")/.." && pwd)
 wt=/tmp/sw-$$-$(basename $sd)
 git -C /repo worktree add -q --detach $wt HEAD || exit 2
 cleanup(){ git -C /repo worktree remove --force $wt 2>/dev/null; }
